@@ -34,7 +34,10 @@ def fixpoint():
             if e == "metadata":
                 new.append(e)
                 continue
-            ra = ruleinfo.automata(rn)
+            try:
+                ra = ruleinfo.automata(rn)
+            except e2.SpecError:
+                continue            # malformed rule (reported by C10): no witness is derived from it
             if ruleinfo.shortest_accepted(ra, usable=usable) is not None:
                 new.append(e)
         if not new:
